@@ -199,16 +199,36 @@ theorem foldl_keepStep_merge (acc : NMap RV) (ds : List Delta) :
     rw [ih]
     rfl
 
-/-- the loading loop of the repaired compactor (only `NotFound` = missing) over complete
-    segments, for every oracle: it either aborts or has loaded exactly the selected segments -/
+/-- no call of this oracle is a read corruption -/
+def NoReadCorruption (F : Oracle) : Prop := ∀ n, F n ≠ .readCorrupt
+
+/-- under `NoReadCorruption` a successful `get` returns the stored object -/
+theorem get_ok_clean {F : Oracle} (hF : NoReadCorruption F) {w w' : World} {n : Nat} {o : Obj}
+    (h : w.get F n = (w', .ok o)) : NMap.get w.store n = some o := by
+  unfold World.get at h
+  split at h
+  · cases h
+  · split at h
+    · split at h
+      · rename_i o' hg; cases h; exact hg
+      · cases h
+    · rename_i hc
+      exact absurd hc (hF _)
+    all_goals cases h
+
+/-- the loading loop of the current compactor (only `NotFound` = missing) over complete
+    segments, for every oracle: it either aborts, or it has loaded a sub-list of the selected
+    segments — those whose read was not corrupted — and nothing else; a segment whose read
+    returned an unparsable body is SKIPPED (it stays listed and is not deleted) -/
 theorem loadLoop_repaired (fl : CompactFlags) (hnf : fl.missingOnlyNotFound = true) (F : Oracle)
     (w : World) (acc : LoadAcc) (l : List SegInfo)
     (hl : ∀ s ∈ l, ∃ ds, NMap.get w.store (segName s.id) = some (.segment ds)) :
     (loadLoop fl F w acc l).2.failed = true ∨
-    ((loadLoop fl F w acc l).2.actually = acc.actually ++ l ∧
-     (loadLoop fl F w acc l).2.ktd = (segDeltas w.store l).foldl (keepStep fl.mergeInsteadOfLatest) acc.ktd) := by
+    ∃ sub, sub.Sublist l ∧ (NoReadCorruption F → sub = l) ∧
+      (loadLoop fl F w acc l).2.actually = acc.actually ++ sub ∧
+      (loadLoop fl F w acc l).2.ktd = (segDeltas w.store sub).foldl (keepStep fl.mergeInsteadOfLatest) acc.ktd := by
   induction l generalizing w acc with
-  | nil => exact Or.inr ⟨by simp [loadLoop], by simp [loadLoop, segDeltas]⟩
+  | nil => exact Or.inr ⟨[], List.Sublist.refl _, fun _ => rfl, by simp [loadLoop], by simp [loadLoop, segDeltas]⟩
   | cons s rest ih =>
     unfold loadLoop
     split
@@ -218,25 +238,38 @@ theorem loadLoop_repaired (fl : CompactFlags) (hnf : fl.missingOnlyNotFound = tr
       have hgs := get_store F w (segName s.id)
       split
       · rename_i w1 ds heq
-        have := get_ok heq
-        rw [hds0] at this
-        cases this
+        have hds : ds = ds0 := by
+          rcases get_ok heq with hg | ⟨ht, _⟩
+          · rw [hds0] at hg; cases hg; rfl
+          · cases ht
+        subst hds
         rw [heq] at hgs
+        have hgs' : w1.store = w.store := hgs
         have hl' : ∀ t ∈ rest, ∃ ds, NMap.get w1.store (segName t.id) = some (.segment ds) := by
           intro t ht
-          rw [hgs]
+          rw [hgs']
           exact hl t (by simp [ht])
-        rcases ih w1 _ hl' with h | ⟨h1, h2⟩
+        rcases ih w1 _ hl' with h | ⟨sub, hsub, hfull, h1, h2⟩
         · exact Or.inl h
-        · refine Or.inr ⟨by rw [h1]; simp, ?_⟩
+        · refine Or.inr ⟨s :: sub, hsub.cons₂ s, fun hF => by rw [hfull hF], by rw [h1]; simp, ?_⟩
           rw [h2]
-          have hgs' : w1.store = w.store := hgs
           simp only [segDeltas, List.flatMap_cons, hds0, List.foldl_append, hgs']
-      · rename_i w1 o hne heq
-        have := get_ok heq
-        rw [hds0] at this
-        cases this
-        exact absurd rfl (hne ds0)
+      · -- a body that does not parse (a read corruption: the stored object is a segment)
+        rename_i w1 o hne heq
+        rw [heq] at hgs
+        have hgs' : w1.store = w.store := hgs
+        have hl' : ∀ t ∈ rest, ∃ ds, NMap.get w1.store (segName t.id) = some (.segment ds) := by
+          intro t ht
+          rw [hgs']
+          exact hl t (by simp [ht])
+        rcases ih w1 acc hl' with h | ⟨sub, hsub, hfull, h1, h2⟩
+        · exact Or.inl h
+        · refine Or.inr ⟨sub, hsub.cons s, ?_, h1, by rw [h2, hgs']⟩
+          intro hF
+          have := get_ok_clean hF heq
+          rw [hds0] at this
+          cases this
+          exact absurd rfl (hne ds0)
       · rename_i w1 nf heq
         cases nf with
         | true =>
@@ -263,7 +296,7 @@ theorem goodAcc_repaired (fl : CompactFlags) (hm : fl.mergeInsteadOfLatest = tru
     intro s hs
     rw [hst1]
     exact (hback.1 s (mem_selectSegments hs)).2
-  rcases loadLoop_repaired fl hnf F w1 LoadAcc.init (selectSegments cfg m) hsel with h | ⟨h1, h2⟩
+  rcases loadLoop_repaired fl hnf F w1 LoadAcc.init (selectSegments cfg m) hsel with h | ⟨sub, _, _, h1, h2⟩
   · rw [h] at hfail; cases hfail
   · unfold GoodAcc
     rw [keptOf_noGC hgc, h1, h2, hm, foldl_keepStep_merge, hst1]
@@ -384,8 +417,8 @@ theorem removeIds_congr {m m' : Manifest} (h : m.segments = m'.segments) (ids : 
     key the folded content is unchanged, except that a key whose merged value is a tombstone below
     the cutoff may have disappeared. -/
 theorem compact_gc_safe (c : Carrier) (fl : CompactFlags) (hm : fl.mergeInsteadOfLatest = true)
-    (hnf : fl.missingOnlyNotFound = true) (F : Oracle) (cfg : CompactCfg) (sz : Nat) (w : World)
-    (hinv : StoreInv w.store) (hcar : InCar c (content w.store)) (hsafe : GcSafe w.store cfg) (k : Nat) :
+    (hnf : fl.missingOnlyNotFound = true) (F : Oracle) (hF : NoReadCorruption F) (cfg : CompactCfg) (sz : Nat)
+    (w : World) (hinv : StoreInv w.store) (hcar : InCar c (content w.store)) (hsafe : GcSafe w.store cfg) (k : Nat) :
     NMap.get (foldState (content (compactWith fl F cfg sz w).1.store)) k = NMap.get (foldState (content w.store)) k ∨
     (NMap.get (foldState (content (compactWith fl F cfg sz w).1.store)) k = none ∧
       ∃ T, NMap.get (foldState (content w.store)) k = some T ∧ dropped cfg T = true) := by
@@ -401,9 +434,10 @@ theorem compact_gc_safe (c : Carrier) (fl : CompactFlags) (hm : fl.mergeInsteadO
       intro s hs
       rw [hst1]
       exact (hback.1 s (mem_selectSegments hs)).2
-    rcases loadLoop_repaired fl hnf F w1 LoadAcc.init (selectSegments cfg m) hselp with h | ⟨h1, h2⟩
+    rcases loadLoop_repaired fl hnf F w1 LoadAcc.init (selectSegments cfg m) hselp with h | ⟨sub, _, hfull, h1, h2⟩
     · rw [h] at hnfail; cases hnfail
-    · rw [h1, h2, hm, foldl_keepStep_merge, hst1] at hcont
+    · rw [hfull hF] at h1 h2
+      rw [h1, h2, hm, foldl_keepStep_merge, hst1] at hcont
       simp only [LoadAcc.init, List.nil_append] at hcont
       have hsel : selectSegments cfg m = selectSegments cfg (manifestOf w.store 0) :=
         selectSegments_congr hsegs.symm
